@@ -86,6 +86,14 @@ var handWritten = []string{
 	"select match(a, b) against ('x' in boolean mode) from t",
 	"select a from t where a = any_value(b) lock in share mode",
 	"select sql_no_cache straight_join a from t use index (i) force index (j)",
+	// one deterministic witness per open printer finding (so that a fix is seen to silence its key)
+	"SELECT INTERVAL 5 `a b`, interval 27 `select` FROM t",
+	"SELECT a FROM t ORDER BY NULL DESC, rand() DESC",
+	"select group_concat(distinct a order by b desc separator 'it''s') from t",
+	"select * from t where convert(a using `a b`) and b collate `select` = c",
+	"SELECT `a b`(1), `select`(2) FROM t",
+	"SELECT c::`select`, cast(d AS `a b`) FROM t",
+	"SET `a b` = 1",
 }
 
 type gen struct {
